@@ -392,6 +392,25 @@ pub fn gen_resize(rng: &mut Rng, cfg: &ResizeCfg, classes: &mut Vec<String>, pt_
         }
         classes.push("zero-dim".into());
     }
+    // "strong reduction": hundreds of source samples per destination sample along one axis
+    // (tiny normalised weights: the fixed-point precision reaches its maximum)
+    if !wrap && cfg.allow_invalid && rng.chance(1, 25) {
+        let long = rng.range(300, 2500) as u32;
+        let short = rng.range(1, 6) as u32;
+        let tiny = rng.range(1, 3) as u32;
+        if rng.chance(1, 2) {
+            sh = long;
+            dh = tiny;
+            sw = short;
+            dw = rng.range(1, 8) as u32;
+        } else {
+            sw = long;
+            dw = tiny;
+            sh = short;
+            dh = rng.range(1, 8) as u32;
+        }
+        classes.push("geometry:strong-reduction".into());
+    }
     // "one-axis" geometry: one direction is an identity (integer origin, crop size ==
     // destination size) inside a larger source, so that only ONE pass runs, straight from
     // the caller's source to the caller's destination, with source rows/columns to spare
